@@ -43,6 +43,8 @@ func (s *Script) Decl(key, text string) {
 	s.decls = append(s.decls, text)
 }
 
+func (s *Script) HasDecl(key string) bool { return s.declSet[key] }
+
 func q(name string) string {
 	if strings.HasPrefix(name, "|") {
 		return name
